@@ -64,8 +64,12 @@ def gen(rng, tier):
         if r < 0.04:
             f2 = f2[:-1] if len(f2) > 1 else f2 + f2
             mal = 'frames'
-        elif r < 0.08:
+        elif r < 0.07:
             f2 = [f2[0]] * len(f2)
+            mal = 'single'
+        elif r < 0.09:        # BOTH labelings single-state (also identical ones): still rejected
+            f1 = [f1[0]] * len(f1)
+            f2 = list(f1) if rng.random() < 0.6 else [f2[0]] * len(f1)
             mal = 'single'
         elif r < 0.11:
             method = 'other'
@@ -94,6 +98,17 @@ def gen(rng, tier):
         f2 = (f2 + l2)[:len(f1)]
         yield {'t1': [f1], 't2': [f2], 'method': rng.choice(['symmetric', 'directed']), 'mal': None, 'alpha': 'index-narrow',
                'dtypes': [rng.choice(['int8', 'uint8', 'int16']), rng.choice(['int8', 'int64'])]}
+    for _ in range(G.budget(12) if tier == 'quick' else 200):      # int8 / int16 arrays with gapped labels spanning more than the type's maximum
+        dt = rng.choice(['int8', 'int8', 'int16'])
+        lo, hi = (-128, 127) if dt == 'int8' else (-32768, 32767)
+        l1 = sorted(set([rng.randint(lo, lo + 30), rng.randint(hi - 30, hi)] + [rng.randint(lo, hi) for _ in range(rng.randint(1, 4))]))
+        l2, _ = G.alphabet(rng, k=rng.randint(2, 5))
+        N = rng.randint(30, 300)
+        f1, f2 = G.traj(rng, l1, N) + l1, G.traj(rng, l2, N + len(l1))
+        if len(set(f2)) < 2:
+            continue
+        yield {'t1': _split(rng, f1), 't2': _split(rng, f2), 'method': rng.choice(['symmetric', 'directed']), 'mal': None,
+               'alpha': 'narrow-wide-span', 'dtypes': [dt, 'int64']}
     for _ in range(G.budget(20) if tier == 'quick' else 200):      # the SAME StateTraj objects compared repeatedly
         k1, k2 = rng.randint(2, 5), rng.randint(2, 5)
         l1, _ = G.alphabet(rng, k=k1)
